@@ -168,7 +168,7 @@ def generate(repo: str) -> str:
     return "\n".join(out) + "\n"
 
 
-def regen(repo: str, verif: str):
+def regen(repo: str, coqdir: str):
     """Returns None on success, an error text when the translator refuses."""
     try:
         text = generate(repo)
@@ -176,5 +176,5 @@ def regen(repo: str, verif: str):
         return f"_rfc1982.py: {e}"
     except (OSError, SyntaxError) as e:
         return f"_rfc1982.py: {e!r}"
-    write_if_changed(os.path.join(verif, "coq/C34/Gen.v"), text)
+    write_if_changed(os.path.join(coqdir, "C34/Gen.v"), text)
     return None
